@@ -4,7 +4,7 @@
      C01_fragment_preservation -- semantic preservation of the backend model (Back/IR.v `lower` + the AST
      twin Pres/EmitAst.v of the text emitter Back/Emit.v) with respect to the reference interpreter
      Sem/SyltSem.v (source side) and the Lua 5.3 interpreter model Lua/LuaCore.v (target side), for the
-     computable fragment Pres/Frag.v `frag` (STAGE 4c': int/bool expressions, print, definitions, assignments
+     computable fragment Pres/Frag.v `frag` (STAGE 4d-s: int/bool/string expressions, print, definitions, assignments
      = += -= *=, if/elif/else expressions and statements, loops with break and continue, blocks, inside
      top-level functions; the outer definitions (global values and FUNCTIONS with parameters, `start` among them, in any
      order the resolver gives them),
@@ -555,10 +555,79 @@ Proof.
   cbn [r_final] in Hfin. destruct (o_final _); try contradiction. reflexivity.
 Qed.
 
+(* ---- a tenth program (stage 4d-s): strings -- literals, concatenation, comparison, equality, <=>, through
+   parameters, a loop and a closure over a mutable string ----
+     greet :: fn name: str, n: int -> str do
+       s := "hello, " + name
+       i := 0
+       loop i < n do  i += 1  s += "!"  end
+       s
+     end
+     start :: fn do
+       print(greet("world", 2))
+       print("a" < "b")
+       print("abc" == "ab" + "c")
+       t := "x"
+       app :: fn u: str do t = t + u end
+       app("y")  app("z")
+       print(t)
+       "done" <=> "do" + "ne"
+     end                                                                                          *)
+Definition str s := Resolved.EStr s sp0.
+Definition ex_prog10 : resolved :=
+  mkResolved
+    [mkVar 0 "print" sp0 true Const; mkVar 1 "greet" sp0 true Const; mkVar 2 "start" sp0 true Const; mkVar 3 "== STACK ==" sp0 false Const;
+     mkVar 4 "name" sp0 false Const; mkVar 5 "n" sp0 false Const; mkVar 6 "s" sp0 false Mutable; mkVar 7 "i" sp0 false Mutable;
+     mkVar 8 "t" sp0 false Mutable; mkVar 9 "app" sp0 false Const; mkVar 10 "u" sp0 false Const]
+    [SExternalDefinition "print" 0 Const (TImplied sp0) sp0;
+     SDefinition "greet" 1 Const (TImplied sp0)
+       (EFunction "lambda" [("name"%string, 4%N, sp0, TImplied sp0); ("n"%string, 5%N, sp0, TImplied sp0)] (TImplied sp0)
+          [SDefinition "s" 6 Mutable (TImplied sp0) (EBinOp Add (str "hello, ") (ERead 4 sp0) sp0) sp0;
+           SDefinition "i" 7 Mutable (TImplied sp0) (EInt 0 sp0) sp0;
+           SLoop (EBinOp Less (ERead 7 sp0) (ERead 5 sp0) sp0)
+             [SAssignment Add (ERead 7 sp0) (EInt 1 sp0) sp0;
+              SAssignment Add (ERead 6 sp0) (str "!") sp0] sp0;
+           SStatementExpression (ERead 6 sp0) sp0] false sp0) sp0;
+     SDefinition "start" 2 Const (TImplied sp0)
+       (EFunction "lambda" [] (TImplied sp0)
+          [SStatementExpression (call 0 [call 1 [str "world"; EInt 2 sp0]]) sp0;
+           SStatementExpression (call 0 [EBinOp Less (str "a") (str "b") sp0]) sp0;
+           SStatementExpression (call 0 [EBinOp Equals (str "abc") (EBinOp Add (str "ab") (str "c") sp0) sp0]) sp0;
+           SDefinition "t" 8 Mutable (TImplied sp0) (str "x") sp0;
+           SDefinition "app" 9 Const (TImplied sp0)
+             (EFunction "lambda" [("u"%string, 10%N, sp0, TImplied sp0)] (TImplied sp0)
+                [SAssignment Nop (ERead 8 sp0) (EBinOp Add (ERead 8 sp0) (ERead 10 sp0) sp0) sp0] false sp0) sp0;
+           SStatementExpression (call 9 [str "y"]) sp0;
+           SStatementExpression (call 9 [str "z"]) sp0;
+           SStatementExpression (call 0 [ERead 8 sp0]) sp0;
+           SStatementExpression (EBinOp AssertEq (str "done") (EBinOp Add (str "do") (str "ne") sp0) sp0) sp0]
+          false sp0) sp0].
+
+Example C01_example10_hypotheses :
+  frag 30 ex_prog10 = true /\
+  (exists code, lower 30 ex_prog10 = Ok code) /\
+  SyltSem.run 60 ex_prog10 = mkRun ["hello, world!!"; "true"; "true"; "xyz"]%string ODone.
+Proof. split; [vm_compute; reflexivity | split; [eexists; vm_compute; reflexivity | vm_compute; reflexivity]]. Qed.
+
+Theorem C01_strings_by_theorem code :
+  lower 30 ex_prog10 = Ok code ->
+  exists m, forall m', (m <= m')%nat ->
+    let out := LuaCore.run_block Lua53 m' (chunk_ast code) in
+    o_trace out = ["hello, world!!"; "true"; "true"; "xyz"]%string /\ o_final out = FDone.
+Proof.
+  intros Hl.
+  assert (Hf : frag 30 ex_prog10 = true) by (vm_compute; reflexivity).
+  assert (Hr : SyltSem.run 60 ex_prog10 = mkRun ["hello, world!!"; "true"; "true"; "xyz"]%string ODone) by (vm_compute; reflexivity).
+  destruct (C01_fragment_preservation 30 ex_prog10 code 60 _ Hf Hl Hr I) as (m & Hm).
+  exists m. intros m' Hle. specialize (Hm m' Hle). cbv zeta in *. destruct Hm as [Ht Hfin]. split; [exact Ht|].
+  cbn [r_final] in Hfin. destruct (o_final _); try contradiction. reflexivity.
+Qed.
+
 Print Assumptions C01_fragment_preservation.
 Print Assumptions C01_fragment_preservation_text.
 Print Assumptions C01_activations_own_locals_by_theorem.
 Print Assumptions C01_loop_iteration_closures_by_theorem.
+Print Assumptions C01_strings_by_theorem.
 
 (* ---- source tie: the hand-written model behind these theorems mirrors the files below; the digests of their
    functions regenerated from /repo on this run equal the reviewed ones (coq/Doc/DocSrcDigest.v).  Any edit of
